@@ -16,7 +16,8 @@ vars == <<toks>>
 
 WmS == << <<26085, 2, 0>>, <<128512, 2, 0>> >>
 Tokens == { <<97>>, <<27>>, <<91>>, <<93>>, <<59>>, <<50>>, <<72>>, <<109>>, <<63>>, <<7>>, <<92>>, <<10>>,
-            <<195, 169>>, <<230, 151, 165>>, <<240, 159, 152, 128>>, <<255>>, <<194, 155>>, <<48, 59, 116>>, <<104>>, <<52>> }
+            <<195, 169>>, <<230, 151, 165>>, <<240, 159, 152, 128>>, <<255>>, <<194, 155>>, <<48, 59, 116>>, <<104>>, <<52>>,
+            <<27, 37, 64>>, <<27, 37, 71>>, <<14>> }     \* ESC % @ / ESC % G inside the stream are consumed and switch nothing
 Bytes(ts) == FoldLeft(LAMBDA acc, t : acc \o t, <<>>, ts)
 
 \* composite state and one feed() call
